@@ -231,4 +231,55 @@ theorem wire_of_ammo (m : C07.Bytes) (a : C07.Ammo) (ok : AmmoOK m a) (confL : L
     generalize mapsHost (toHdr a.hdrs) (confHdr confL) = M
     by_cases hu : (splitURL (toStr a.url)).1 = [] <;> by_cases hM : M = [] <;> simp [hu, hM]
 
+/-! ## http/json: C07's entity → `Ammo.Setup` arguments are C09's reading of a json entry -/
+
+/-- the header members of a C07 entity as C09 header lines -/
+def jsonLines (e : C07.Entity) : List (Str × Str) := e.headers.map fun kv => (toStr kv.1, toStr kv.2)
+
+/-- a C07 entity as a C09 entry -/
+def jsonEntry (e : C07.Entity) : Entry :=
+  { method := toStr e.method, uri := toStr e.uri, host := toStr e.host, body := toStr e.body }
+
+theorem toHdr_foldl_hset (l : List (C07.Bytes × C07.Bytes)) (h : C07.Hdrs) :
+    toHdr (l.foldl (fun h kv => C07.hset h kv.1 kv.2) h) =
+      commonOf (toHdr h) (l.map fun kv => (toStr kv.1, toStr kv.2)) := by
+  induction l generalizing h with
+  | nil => simp [commonOf]
+  | cons kv r ih =>
+    simp only [List.foldl_cons, List.map_cons, commonOf] at ih ⊢
+    rw [ih, toHdr_hset]
+
+theorem validMethod_eq (m : C07.Bytes) : C07.validMethod m = validMethod (toStr m) := by
+  unfold C07.validMethod validMethod
+  rw [all_tok_eq]
+  cases m <;> simp [toStr]
+
+/-- what C07's model hands to `Ammo.Setup` for an entity is, field by field, what C09's `buildReq .jsonline` starts from -/
+theorem entityAmmo_json (e : C07.Entity) (a : C07.Ammo) (h : C07.entityAmmo e = .ok a) :
+    toStr a.method = (jsonEntry e).method ∧ toStr a.url = httpPfx ++ (jsonEntry e).host ++ (jsonEntry e).uri ∧
+      toStr a.body = (jsonEntry e).body ∧ toHdr a.hdrs = commonOf [] (jsonLines e) ∧
+      validMethod (jsonEntry e).method = true := by
+  unfold C07.entityAmmo at h
+  split at h
+  · rename_i hv
+    injection h with h
+    subst h
+    refine ⟨rfl, ?_, rfl, ?_, ?_⟩
+    · simp [toStr, jsonEntry, C07.httpPrefix, httpPfx]
+    · exact toHdr_foldl_hset e.headers []
+    · show validMethod (toStr e.method) = true
+      rw [← validMethod_eq]; exact hv
+  · cases h
+
+/-- the entity is refused (ErrBadMethod) exactly when C09's `scanJson` refuses it -/
+theorem entityAmmo_refused (e : C07.Entity) (err : C07.Err) (h : C07.entityAmmo e = .error err) :
+    validMethod (jsonEntry e).method = false := by
+  unfold C07.entityAmmo at h
+  split at h
+  · cases h
+  · rename_i hv
+    show validMethod (toStr e.method) = false
+    rw [← validMethod_eq]
+    exact Bool.eq_false_iff.mpr hv
+
 end Pandora.Proofs.C09R6
